@@ -242,7 +242,8 @@ def main(chk):
                 cases.append(R.Case(d, tool, op, cons, cls=cls, note='mutant'))
 
     # ---- run: long ones first
-    cases.sort(key=lambda c: -c.size())
+    # (fixed shapes / grid early: the hang findings among them occupy a worker for the whole CPU limit)
+    cases.sort(key=lambda c: (0 if c.size() > 100000 else 1 if c.note in ('shape', 'grid') else 2, -c.size()))
     R.run_cases(cases, timeout=400 if not quick else 240)
 
     # ---- judge
